@@ -21,6 +21,11 @@ CHECKS = {
         technique="exhaustive enumeration of byte strings (all strings over a 12-byte alphabet up to length 5-7 with every first byte, every prefix / single-position substitution of a corpus of valid encodings) through the real decoders",
         text="PacketReader (dcid len 0/8/20), FrameReader (4 packet types), transport-parameter parsers and nom sub-parsers are run on ~14 M (thorough ~530 M) systematically enumerated inputs; no panic, progress on every Ok item, no out-of-input lengths, prescribed error kinds, malformed datagrams dropped.",
         note="Exhaustive over the stated input families, not over all byte strings; in-process (an abort would be a machinery failure)."),
+    "C04": dict(
+        engine="E0-enum", category="exploration", design_ref="§3 C04",
+        technique="exhaustive enumeration of boundary-value products of every numeric frame field after short legitimate histories, delivered through the wire (real writer + real FrameReader) to the real handlers; cost measured by a counting allocator and watchdogged child processes (checked and prod profiles)",
+        text="ACK (sent journal call sequence of AckDataSpace, RcvdJournal::on_rcvd_ack, ArcCC::on_ack_rcvd), packet-number decode + on_rcvd_pn + ACK generation, NEW_CONNECTION_ID / RETIRE_CONNECTION_ID, MAX_DATA / MAX_STREAM_DATA / MAX_STREAMS / STREAM / RESET_STREAM / STOP_SENDING / CRYPTO: every field over 13 boundary values + state-relative values after 0-2 legitimate steps: allocation <= 64 KiB + 256 x (frame size + records held), return within 3 s under a 2 GiB address-space limit, prescribed error for never-sent / negative / over-limit / impossible identifiers with state unchanged, no panic.",
+        note="Histories of at most 3 packets / ids; Data epoch, client role, NewReno; far cases (field >= state + 10^6) run in child processes; ECN counts and > 2 extra ACK ranges not enumerated."),
     "C05": dict(
         engine="E0-enum", category="exploration", design_ref="§3 C05",
         technique="exhaustive enumeration of boundary-value products of every encodable value, encoded with the crate's writers and decoded with the real readers in every permitted packet type",
@@ -61,6 +66,11 @@ CHECKS = {
         technique="explicit-state BFS over the two-endpoint stream pipe with stream-count limits 0..3 and both concurrency strategies (local opens) + exhaustive enumeration of peer frames x stream-id classes after short legitimate histories (peer side)",
         text="Local opens never exceed the count the peer has granted as known to the opener; MAX_STREAMS never decreases; every stream is offered to accept exactly once. Peer side: every frame kind x (initiator, direction) x index {0,max-1,max,max+1,2^60-1} x 19 payload shapes, for both roles, counts {0,1,3}^2, both strategies, 3 prefixes: stream-limit / stream-state / flow-control verdicts per RFC 9000; two-frame final-size contradictions; implicit opening of lower-numbered streams exactly once.",
         note="Final-size clauses are demanded only while the receiving part of the stream is still open (the RFC's 'even after closed' is a SHOULD)."),
+    "C13": dict(
+        engine="E1-xplore", category="model_checking", design_ref="§3 C13",
+        technique="explicit-state BFS (depth 6-7 quick / 7-9 thorough, deviation budget 1-2, canonical-state dedup incl. the congestion-control snapshot hook) over send / ack-shape / clock-advance / tick histories of the real ArcCC with a recording Feedback, plus a no-ack liveness run from every distinct state and a window-fill search",
+        text="For both roles x {no handshake keys, handshake keys, confirmed}: every loss report is justified by a later acknowledged packet and the packet or time threshold (judged against two RFC 9002 5.3 reference RTT estimators), acknowledged packets are never declared lost, bytes_in_flight equals the ledger, cwnd >= 2 datagrams, at most one reduction per recovery period, growth only outside recovery, no quota while the window is full; from every state with no further acks every outstanding ack-eliciting packet is lost or probed, successive PTOs double, the connection is eventually abandoned.",
+        note="<= 5 packets outstanding; NewReno only (BBR is unreachable: todo!()); receive side (on_pkt_rcvd / need_ack) not driven."),
     "C14": dict(
         engine="E1-xplore", category="model_checking", design_ref="§3 C14",
         technique="explicit-state BFS to closure over operation histories of real ArcLocalCids on a real QuicRouter and of real ArcRemoteCids with path cells",
@@ -87,7 +97,7 @@ CHECKS = {
         text="parse_from_bytes accepts exactly the legal sets and answers everything else with TRANSPORT_PARAMETER_ERROR, never a panic; readiness iff the declared cids equal the observed ones in both arrival orders with waiters woken; idle timeout = min non-zero; remembered parameters honoured only if nothing shrank; every accepted set is applied to the real consumers without panic.",
         note="Boundary values + documented bounds +-1 per id; SHOULD-level rules (duplicates) are counted, not judged."),
     "C19": dict(
-        engine="E0-enum", category="exploration", design_ref="§3 C19",
+        engine="E0-enum", category="fault_enumeration", design_ref="§3 C19",
         technique="exhaustive enumeration of datagram sizes x peer maxima x remaining-space values x queue contents on the real DatagramFlow writer/assembler/reader, bytes re-parsed by the real FrameReader, plus an E1 closure over send/assemble/receive histories",
         text="A datagram is refused iff no DATAGRAM frame carrying it fits the peer's maximum; every emitted frame is exactly one queued datagram, unchanged, FIFO, a length-less frame only last with padding before it; oversize received frames yield PROTOCOL_VIOLATION; after a connection error everything fails with it.",
         note="(a) component level; (b) E3: k datagrams each way over the real stack, fault-free and every single-drop schedule — currently every accepted datagram is never transmitted (known finding), so the order/merge clauses are only exercised at component level."),
@@ -99,8 +109,6 @@ CHECKS = {
 }
 
 NOT_YET = {
-    "C04": "hostile-frame cost/verdict enumeration not built yet; bounded exhaustive enumeration applies (DESIGN.md §3 C04)",
-    "C13": "loss-detection / congestion-control state search not built yet (DESIGN.md §3 C13)",
 }
 
 def main():
